@@ -554,8 +554,8 @@ func IncSeq(seq []byte) ([]byte, bool) {
 // doc comment of hpke.Sealer MarshalBinary: role, kem, kdf, aead, then four
 // one-byte-length-prefixed fields.
 type Marshalled struct {
-	Role                    byte
-	KEM, KDF, AEAD          uint16
+	Role                      byte
+	KEM, KDF, AEAD            uint16
 	Exporter, Key, Nonce, Seq []byte
 }
 
